@@ -12,9 +12,12 @@ BOT = (False, False, frozenset(), frozenset())
 NEUTRAL_METHODS = {"clone", "iter", "into_iter", "enumerate", "as_value", "as_slice", "to_vec", "as_ref", "as_mut",
                    "borrow", "deref", "skip", "cloned", "to_owned", "unwrap", "expect", "unwrap_or_default"}
 READ_METHODS = {"len", "is_empty", "first", "last", "get", "contains", "iter", "as_slice"}
-BREAKING_METHODS = {"push", "append", "extend", "extend_from_slice", "insert", "remove", "swap", "swap_remove", "drain",
-                    "truncate", "rotate_left", "rotate_right", "sort", "sort_by", "sort_by_key", "sort_unstable", "dedup_by_key",
-                    "dedup_by", "splice", "split_off", "resize", "fill"}
+BREAKING_METHODS = {"push", "append", "extend", "extend_from_slice", "insert", "swap", "swap_remove",
+                    "rotate_left", "rotate_right", "sort", "sort_by", "sort_by_key", "sort_unstable",
+                    "splice", "resize", "fill"}
+# removing elements keeps a sorted vector sorted and a duplicate-free vector duplicate-free
+REMOVING_METHODS = {"retain", "pop", "truncate", "remove", "drain", "dedup", "dedup_by", "dedup_by_key", "split_off",
+                    "shrink_to_fit", "reserve"}
 
 
 def meet(a, b):
@@ -36,6 +39,7 @@ class Interp:
         self.summ = {}
         self.table_fids = table_fids
         self.unknown = []
+        self.mut_summ = {}      # fid -> {param index: state of a `&mut Vec<XmlNode>` parameter when the function returns}
 
     # ------------------------------------------------------------------ summaries
 
@@ -45,15 +49,23 @@ class Interp:
     def solve(self, fns):
         for f in fns:
             self.summ[f["id"]] = TOP
+            # greatest fixpoint: start from the most optimistic in-place effect as well
+            self.mut_summ[f["id"]] = {i: TOP for i, p in enumerate(f.get("params") or [])
+                                      if p.get("p") == "Bind" and str(p.get("ty", "")).startswith("&mut") and is_vec_type(p.get("ty"))}
         changed = True
         rounds = 0
         while changed:
             changed = False
             rounds += 1
             for f in fns:
-                new = self.fn_value(f)
+                new = meet(self.summ[f["id"]], self.fn_value(f))
                 if new != self.summ[f["id"]]:
-                    self.summ[f["id"]] = meet(self.summ[f["id"]], new)
+                    self.summ[f["id"]] = new
+                    changed = True
+                old = self.mut_summ[f["id"]]
+                upd = {i: meet(old.get(i), v) for i, v in self.cur_mut.items()}
+                if upd != old:
+                    self.mut_summ[f["id"]] = upd
                     changed = True
             if rounds > 50:
                 raise BrokenCheck("R07-1: summaries do not converge")
@@ -68,18 +80,38 @@ class Interp:
                 else:
                     env[p["lid"]] = TOP
         self.rets = []
+        self.ret_envs = []
         self.origin = {}
         self.loopvars = {}
         v = self.ev(f["body"], env)
         out = v
         for r in self.rets:
             out = meet(out, r)
+        # in-place effect on `&mut Vec<XmlNode>` parameters: their state on every way out of the function
+        self.cur_mut = {}
+        for i, p in enumerate(f.get("params") or []):
+            if p.get("p") == "Bind" and str(p.get("ty", "")).startswith("&mut") and is_vec_type(p.get("ty")):
+                st = env.get(p["lid"], TOP)
+                for re_ in self.ret_envs:
+                    st = meet(st, re_.get(p["lid"], TOP))
+                self.cur_mut[i] = st
         return out if out is not None else TOP
 
     # ------------------------------------------------------------------ expressions
 
+    def effects(self, fid, arg_exprs, args, env):
+        """apply the in-place summaries of the callee to the vectors handed over by `&mut`"""
+        for i, st in self.mut_summ.get(fid, {}).items():
+            if i < len(arg_exprs):
+                root = self._root(arg_exprs[i])
+                if root is not None and root in env:
+                    env[root] = self.apply_state(st, args)
+                    self.origin.pop(root, None)
+
     def apply(self, fid, args):
-        s = self.summary(fid)
+        return self.apply_state(self.summary(fid), args)
+
+    def apply_state(self, s, args):
         sv, dv = s[0], s[1]
         sd, dd = frozenset(), frozenset()
         for i in s[2]:
@@ -111,6 +143,7 @@ class Interp:
         if k == "Ret":
             if "v" in e:
                 self.rets.append(self.ev(e["v"], env))
+            self.ret_envs.append(dict(env))
             return None
         if k in ("Break", "Continue"):
             return None
@@ -309,7 +342,15 @@ class Interp:
                 return args[0] if args else TOP
             fid = f.get("rid") or f.get("id")
             if fid in self.summ:
-                return self.apply(fid, args)
+                out = self.apply(fid, args)
+                self.effects(fid, e["args"], args, env)
+                return out
+            for a_ in e["args"]:
+                # a vector handed by `&mut` to a function without a summary: nothing is known about it afterwards
+                if str(a_.get("ty", "")).startswith("&mut") and is_vec_type(a_.get("ty")):
+                    r_ = self._root(a_)
+                    if r_ is not None and r_ in env:
+                        env[r_] = BOT
             if e.get("mac", "").startswith("vec"):
                 return TOP if len(args) <= 1 else BOT
             if last in ("new",) and "Vec" in path:
@@ -344,7 +385,10 @@ class Interp:
         tracked = root is not None and root in env and is_vec_type(e.get("recvty"))
         fid = e.get("rid") or e.get("id")
         if fid in self.summ:
-            return self.apply(fid, [rv if rv is not None else TOP] + [a if a is not None else TOP for a in args])
+            full = [rv if rv is not None else TOP] + [a if a is not None else TOP for a in args]
+            out = self.apply(fid, full)
+            self.effects(fid, [recv] + e["args"], full, env)
+            return out
         if tracked:
             cur = env.get(root, TOP)
             if m == "sort_by_cached_key" and self._closure_is_order_key(e["args"][0]):
@@ -375,6 +419,8 @@ class Interp:
                 env[root] = BOT
                 self.origin.pop(root, None)
                 return TOP
+            if m in REMOVING_METHODS:
+                return BOT if is_nodeish(e.get("ty")) and m in ("drain", "split_off") else TOP
             if m in BREAKING_METHODS:
                 env[root] = BOT
                 self.origin.pop(root, None)
